@@ -478,10 +478,10 @@ pub fn prop() -> Prop {
         subs: vec![
             Sub { name: "probes", kind: Kind::Exhaustive(probes) },
             Sub { name: "random-valid", kind: Kind::Random { f: random_valid, quick: 30_000, thorough: 1_600_000, len: 600 } },
-            Sub { name: "random-near-miss", kind: Kind::Random { f: random_near_miss, quick: 40_000, thorough: 2_000_000, len: 600 } },
-            Sub { name: "random-extreme-text", kind: Kind::Random { f: random_extreme_text, quick: 20_000, thorough: 600_000, len: 64 } },
-            Sub { name: "random-programmatic", kind: Kind::Random { f: random_programmatic, quick: 20_000, thorough: 600_000, len: 64 } },
-            Sub { name: "random-eval", kind: Kind::Random { f: random_eval, quick: 20_000, thorough: 1_000_000, len: 500 } },
+            Sub { name: "random-near-miss", kind: Kind::Random { f: random_near_miss, quick: 160_000, thorough: 3_200_000, len: 600 } },
+            Sub { name: "random-extreme-text", kind: Kind::Random { f: random_extreme_text, quick: 80_000, thorough: 1_600_000, len: 64 } },
+            Sub { name: "random-programmatic", kind: Kind::Random { f: random_programmatic, quick: 80_000, thorough: 1_600_000, len: 64 } },
+            Sub { name: "random-eval", kind: Kind::Random { f: random_eval, quick: 200_000, thorough: 4_000_000, len: 500 } },
         ],
         direct: Some(direct),
         selftest: None,
